@@ -140,19 +140,59 @@ def truth(v):
 
 # ---------------------------------------------------------------- heap
 class Heap:
-    """Burstall-Bornat heap: one z3 array per component, keyed by reference (Int)."""
+    """Burstall-Bornat heap: one z3 array per component, keyed by reference (Int).
+
+    Each component is kept as (base array term, write log).  A read walks the log backwards and skips
+    writes to references that are known to differ from the one read (different allocation epoch, or
+    same epoch with different offsets); this is the read-over-write axiom applied eagerly, so terms do
+    not carry long Store chains.  Anything not decided syntactically falls back to Select(Store ...)."""
 
     def __init__(self, tag):
-        self.m = {}
+        self.m = {}             # key -> [base_term, [(ref, val), ...]]
         self.tag = tag
         self.alloc = z3.Int(fresh_name('alloc_' + tag))
+        self.epoch = 0
+        self.info = {}          # term id -> (epoch, offset or None)
+        self.base = self.alloc  # alloc term at the start of the current epoch
+        self.used = 0
 
     def copy(self):
         h = Heap.__new__(Heap)
-        h.m = dict(self.m)
+        h.m = {k: [v[0], list(v[1])] for k, v in self.m.items()}
         h.tag = self.tag
         h.alloc = self.alloc
+        h.epoch, h.info, h.base, h.used = self.epoch, dict(self.info), self.base, self.used
         return h
+
+    # allocation bookkeeping ----------------------------------------
+    def new_ref(self):
+        r = self.alloc
+        self.info[r.get_id()] = (self.epoch, self.used)
+        self._keep = getattr(self, '_keep', [])
+        self._keep.append(r)
+        self.used += 1
+        self.alloc = self.base + self.used
+        return r
+
+    def new_epoch(self, alloc_term):
+        self.epoch += 1
+        self.base = alloc_term
+        self.alloc = alloc_term
+        self.used = 0
+
+    def note_pre(self, ref):
+        """ref is known to be allocated before the first epoch (a parameter)"""
+        self.info[ref.get_id()] = (-1, None)
+        self._keep = getattr(self, '_keep', [])
+        self._keep.append(ref)
+
+    def distinct(self, a, b):
+        ia, ib = self.info.get(a.get_id()), self.info.get(b.get_id())
+        if ia is None or ib is None:
+            return False
+        if ia[0] != ib[0]:
+            return True
+        return ia[1] is not None and ib[1] is not None and ia[1] != ib[1]
 
     def _sort(self, key):
         if key in ('len', 'sh0', 'sh1'):
@@ -172,19 +212,43 @@ class Heap:
             return z3.ArraySort(I, es[t])
         raise Unsupported("heap key %r" % key)
 
-    def get(self, key):
+    def _entry(self, key):
         if key not in self.m:
-            self.m[key] = z3.Const('H_%s_%s' % (self.tag, key), self._sort(key))
+            self.m[key] = [z3.Const('H_%s_%s' % (self.tag, key), self._sort(key)), []]
         return self.m[key]
 
+    def get(self, key):
+        base, log = self._entry(key)
+        t = base
+        for (r, v) in log:
+            t = z3.Store(t, r, v)
+        return t
+
     def set(self, key, term):
-        self.m[key] = term
+        self.m[key] = [term, []]
 
     def rd(self, key, ref):
-        return z3.Select(self.get(key), ref)
+        base, log = self._entry(key)
+        n = len(log)
+        while n > 0:
+            r, v = log[n - 1]
+            if r.eq(ref):
+                return v
+            if not self.distinct(r, ref):
+                break
+            n -= 1
+        t = base
+        for (r, v) in log[:n]:
+            t = z3.Store(t, r, v)
+        return z3.Select(t, ref)
 
     def wr(self, key, ref, val):
-        self.m[key] = z3.Store(self.get(key), ref, val)
+        base, log = self._entry(key)
+        # a write to the same reference as the last write replaces it
+        if log and log[-1][0].eq(ref):
+            log[-1] = (ref, val)
+        else:
+            log.append((ref, val))
 
 
 class State:
